@@ -12,7 +12,7 @@ pub mod watch;
 pub use bfs::{bfs, BfsStats};
 pub use json::Json;
 pub use panics::{catch, install_silent_hook, PanicInfo};
-pub use par::{par_map, par_ranges, threads};
+pub use par::{par_map, par_ranges, threads, Shared};
 pub use report::{Ctx, Tier, Violation};
 
 /// Root of the verification tree (`/verif` unless `VERIF_ROOT` is set by `./check`).
